@@ -115,6 +115,10 @@ func (e *Engine) doCall(st *State, fr *Frame, dst *ssa.Call, cc *ssa.CallCommon,
 			}
 			return forks
 		}
+		if f.Noop {
+			setResult(st, nil)
+			return nil
+		}
 		if f.Fn == nil {
 			e.fail(st, "panic", "call of nil function")
 			return nil
@@ -139,8 +143,9 @@ func (e *Engine) doCall(st *State, fr *Frame, dst *ssa.Call, cc *ssa.CallCommon,
 		}
 	}
 	// content-demanding foreign code: fork an atom argument over its concrete candidates
-	// (log/slog calls are no-ops below and never look at their arguments)
-	if !strings.HasPrefix(fnPkgPath(fn), "github.com/cloudflare/pint") && !atomTolerant[fnKey(fn)] && !strings.HasPrefix(fnPkgPath(fn), "log/slog") {
+	// (generic container code — slices, maps, cmp, sort — only compares its elements: atoms pass through; ordering
+	// comparisons on atoms are rejected where they happen)
+	if !strings.HasPrefix(fnPkgPath(fn), "github.com/cloudflare/pint") && !atomTolerant[fnKey(fn)] && !atomGeneric[fnPkgPath(fn)] && !strings.HasPrefix(fnPkgPath(fn), "log/slog") {
 		for ai, a := range args {
 			sv, ok := a.(StringVal)
 			if !ok || sv.Atom == nil {
@@ -307,6 +312,8 @@ func (e *Engine) opaqueOf(t types.Type) Value {
 	}
 	return zeroValue(t)
 }
+
+var atomGeneric = map[string]bool{"slices": true, "maps": true, "cmp": true, "sort": true}
 
 // foreign functions whose stubs handle atoms themselves
 var atomTolerant = map[string]bool{
@@ -524,7 +531,7 @@ func mergeValue(c *Term, a, b Value) (Value, bool) {
 		return IfaceVal{Type: x.Type, Val: m}, ok
 	case FuncVal:
 		y, ok := b.(FuncVal)
-		if !ok || x.Fn != y.Fn || x.Builtin != y.Builtin || len(x.Bindings) != len(y.Bindings) {
+		if !ok || x.Fn != y.Fn || x.Builtin != y.Builtin || x.Noop != y.Noop || len(x.Bindings) != len(y.Bindings) {
 			return nil, false
 		}
 		for i := range x.Bindings {
@@ -750,7 +757,12 @@ func (e *Engine) builtin(st *State, fr *Frame, dst *ssa.Call, b *ssa.Builtin, cc
 				set(ConstBV(uint64(x.Cap), 64))
 			}
 		case StringVal:
-			set(ConstBV(uint64(len(x.Bytes)), 64))
+			if x.Atom != nil {
+				// was: silently 0. Concrete members have their length, anonymous members an uninterpreted one.
+				set(e.atomLen(x))
+			} else {
+				set(ConstBV(uint64(len(x.Bytes)), 64))
+			}
 		case MapVal:
 			set(ConstBV(uint64(len(e.mapObj(st, x).Entries)), 64))
 		case ArrayVal:
